@@ -677,6 +677,8 @@ def verify_function(repo, registry, qualname, max_paths=400, post_hooks=(), fixe
             rep.path_summaries.append({"decisions": list(ex.decisions), "outcome": outcome[0]})
         except Infeasible:
             pass
+        except PathEnd:
+            pass        # a ghost call ended this path (e.g. the body path of an invariant loop inside a reference call)
         except loops_mod().RestartFunction as rs:
             registry.under_proof = None
             registry.proof_contract = None
